@@ -212,3 +212,109 @@ Print Assumptions C06_row.
 Print Assumptions C06_default_side_conditions.
 Print Assumptions C06_default.
 Print Assumptions C06_centre.
+
+(* ==================================================================================================================================
+   APPENDED: THE SEEDING STAGE IN EXACT ARITHMETIC (model/Correlate.v; proofs/CorrelateProofs1-4.v)
+
+   The header above says that the seeding half is not modelled.  Its exact-arithmetic core now is: OpticalMap.getSequence
+   (vectorise, blur, strand reversal), the integer cross-correlation that scipy.signal.correlate(mode='valid') computes (by FFT,
+   then rounded) and the normalising factor of getInitialAlignment are modelled in model/Correlate.v and tied to the real functions
+   by the streams xcorr / xcorr_random / sequence / seeding_correlation of harness/props/C16.py.  What is proved here:
+
+     C06_true_lag_is_global_max      a noise-free copy of CONSECUTIVE reference labels whose first label R[a] is a multiple k0*res of the
+                                     resolution (either strand; on '-' the copied labels must moreover lie on the lattice R[a] + res*Z,
+                                     the C11 condition, so that the reversed vector of the mirrored labels is the forward vector):
+                                     the query's blurred vector placed at lag k0 is covered by the reference's blurred vector, the
+                                     correlation at k0 equals the number of 1-bits of the query vector, and no lag has more.
+     C06_true_lag_window_normalised  moreover the reference window at lag k0 IS the query vector (foreign labels cannot change it: what
+                                     they blur into the window is already set by the first / last copied label), so the normalised
+                                     correlation of getInitialAlignment is exactly 1 at k0, and it is <= 1 everywhere: k0 is a global
+                                     maximum of the normalised correlation too.  (In general the normalisation is NOT monotone: a
+                                     covered lag need not maximise the normalised correlation, C16_normalised_not_monotone.)
+     C06_true_lag_any_offset_partial any offset R[a] = k0*res + o, 0 <= o < res, blur radius r >= 1: a label's query bin and its
+                                     reference bin (minus k0) differ by 0 or 1, so only the query vector blurred with radius r-1 is
+                                     covered: correlation at k0 >= number of 1-bits of the (r-1)-blurred query vector, while every lag is
+                                     <= the number of 1-bits of the r-blurred query vector.  The full statement "k0 is a global maximum
+                                     for every offset" is FALSE: C06_off_lattice_not_max.
+   THE MAXIMUM NEED NOT BE STRICT: neighbouring lags can reach the same value (C06_plateau: the blur makes plateaus); which point of
+   a plateau scipy.signal.find_peaks reports, its prominence/height/distance filters and the edge rule (the first and last lag are
+   never peaks) stay outside these theorems, as does floating-point rounding of the FFT (measured: |error| ~ 1e-10 against integers).
+   These theorems do not depend on the unit: positions, offsets and the resolution are integers in one common unit (in the unit of
+   Pairing.v, tenths of a bp, the primary resolution 1400 bp is res = 14000). *)
+From Coq Require Import Sorting.Sorted.
+Require Import Peaks Correlate CorrelateProofs1 CorrelateProofs3 CorrelateProofs4.
+
+Theorem C06_true_lag_is_global_max R a n res r k0 (rev : bool) q :
+  1 <= res -> StronglySorted Z.le R -> (1 <= n)%nat -> (a + n <= List.length R)%nat ->
+  planted R a n rev q -> nth a R 0 = Z.of_nat k0 * res ->
+  (rev = true -> Forall (fun x => (res | x - nth a R 0)) (win R a n)) ->
+  let vr := get_sequence R res r false 0 None in
+  let vq := get_sequence (mpositions q) res r rev 0 None in
+  (List.length vq <= List.length vr)%nat /\ (k0 <= List.length vr - List.length vq)%nat /\ covers vr vq k0 /\
+  0 < vsum vq /\ nth k0 (xcorr vr vq) 0 = vsum vq /\
+  forall k, (k <= List.length vr - List.length vq)%nat -> nth k (xcorr vr vq) 0 <= nth k0 (xcorr vr vq) 0.
+Proof. exact (planted_seed_true_lag R a n res r k0 rev q). Qed.
+
+Theorem C06_true_lag_window_normalised R a n res r k0 (rev : bool) q :
+  1 <= res -> StronglySorted Z.le R -> (1 <= n)%nat -> (a + n <= List.length R)%nat ->
+  planted R a n rev q -> nth a R 0 = Z.of_nat k0 * res ->
+  (rev = true -> Forall (fun x => (res | x - nth a R 0)) (win R a n)) ->
+  let vr := get_sequence R res r false 0 None in
+  let vq := get_sequence (mpositions q) res r rev 0 None in
+  window vr k0 (List.length vq) = vq /\ (nth k0 (normalised vr vq) 0 == 1)%Q /\
+  forall k, (k <= List.length vr - List.length vq)%nat -> (nth k (normalised vr vq) 0 <= nth k0 (normalised vr vq) 0)%Q.
+Proof. exact (planted_seed_normalised R a n res r k0 rev q). Qed.
+
+(* full statement (false, see C06_off_lattice_not_max):  ... nth a R 0 = Z.of_nat k0 * res + o -> 0 <= o < res ->
+     forall k, k <= length vr - length vq -> nth k (xcorr vr vq) 0 <= nth k0 (xcorr vr vq) 0 *)
+Theorem C06_true_lag_any_offset_partial R a n res r k0 o q :
+  1 <= res -> StronglySorted Z.le R -> (1 <= n)%nat -> (a + n <= List.length R)%nat ->
+  planted R a n false q -> 0 <= o < res -> nth a R 0 = Z.of_nat k0 * res + o -> (1 <= r)%nat ->
+  let vr := get_sequence R res r false 0 None in
+  let vq := get_sequence (mpositions q) res r false 0 None in
+  (List.length vq <= List.length vr)%nat /\ (k0 <= List.length vr - List.length vq)%nat /\
+  vsum (get_sequence (mpositions q) res (r - 1) false 0 None) <= nth k0 (xcorr vr vq) 0 /\
+  forall k, (k <= List.length vr - List.length vq)%nat -> nth k (xcorr vr vq) 0 <= vsum vq.
+Proof. exact (planted_seed_any_offset R a n res r k0 o q). Qed.
+
+(* ---- non-vacuity (unit: tenths of a bp; resolution 100 = 10 bp, blur 1) ---- *)
+(* reference labels at 0, 70, 100, 110, 200 bp; the copy of labels 2..3 (a = 1, n = 2) on '+'; R[a] = 7 * res.
+   The correlation is [2;1;0;1;2;3;4;4;4;4;3;2;1;0;0;0;1;2]: the true lag 7 reaches 4 = all 1-bits of the query vector, and so do lags 6, 8
+   and 9 (a plateau: the maximum is not strict; the normalised correlation is 1 on all four). *)
+Definition sx_R : list Z := [0; 700; 1000; 1100; 2000].
+Definition sx_q : omap := mkMap 7 310 [0; 300] 0.
+Example C06_seed_nonvacuous :
+  StronglySorted Z.le sx_R /\ planted sx_R 1 2 false sx_q /\ nth 1 sx_R 0 = Z.of_nat 7 * 100 /\
+  get_sequence sx_R 100 1 false 0 None = [1;1;0;0;0;0;1;1;1;1;1;1;1;0;0;0;0;0;0;1;1] /\
+  get_sequence (mpositions sx_q) 100 1 false 0 None = [1;1;1;1] /\
+  xcorr (get_sequence sx_R 100 1 false 0 None) (get_sequence (mpositions sx_q) 100 1 false 0 None) = [2;1;0;1;2;3;4;4;4;4;3;2;1;0;0;0;1;2] /\
+  vsum (get_sequence (mpositions sx_q) 100 1 false 0 None) = 4 /\
+  (nth 7 (normalised (get_sequence sx_R 100 1 false 0 None) (get_sequence (mpositions sx_q) 100 1 false 0 None)) 0 == 1)%Q.
+Proof. split; [repeat constructor; discriminate|]. split; [vm_compute; repeat split; reflexivity|]. vm_compute. repeat split; reflexivity. Qed.
+Example C06_plateau :
+  let x := xcorr (get_sequence sx_R 100 1 false 0 None) (get_sequence (mpositions sx_q) 100 1 false 0 None) in
+  nth 6 x 0 = 4 /\ nth 7 x 0 = 4 /\ nth 8 x 0 = 4 /\ nth 9 x 0 = 4 /\ nth 5 x 0 = 3 /\ nth 10 x 0 = 3.
+Proof. vm_compute. repeat split; reflexivity. Qed.
+(* the reverse strand: reference labels on the 10 bp lattice, the mirror image of the copy of labels 2..4, read on '-' *)
+Definition sx_R2 : list Z := [0; 700; 1000; 1600; 2000; 2300].
+Definition sx_q2 : omap := mkMap 7 910 [0; 600; 900] 0.        (* 1600-1600, 1600-1000, 1600-700 *)
+Example C06_seed_nonvacuous_reverse :
+  planted sx_R2 1 3 true sx_q2 /\ Forall (fun x => (100 | x - nth 1 sx_R2 0)) (win sx_R2 1 3) /\
+  get_sequence (mpositions sx_q2) 100 1 true 0 None = [1;1;1;1;1;0;0;0;1;1] /\
+  nth 7 (xcorr (get_sequence sx_R2 100 1 false 0 None) (get_sequence (mpositions sx_q2) 100 1 true 0 None)) 0 = 7 /\
+  window (get_sequence sx_R2 100 1 false 0 None) 7 10 = get_sequence (mpositions sx_q2) 100 1 true 0 None.
+Proof. split; [vm_compute; repeat split; reflexivity|].
+  split; [repeat (apply Forall_cons; [match goal with |- (_ | ?p) => exists (p / 100); vm_compute; reflexivity end|]); apply Forall_nil|].
+  vm_compute. repeat split; reflexivity. Qed.
+(* off the lattice the true lag need not be a maximum: labels 0, 33, 59, 92 bp, the copy of labels 2..4 (offset 33 bp = 3 * 10 bp + 3 bp):
+   the correlation is [6;6;5;5;5], the true lag 3 (and 4) reaches 5, lags 0 and 1 reach 6.  The partial theorem's bounds hold: 3 <= 5 <= 6. *)
+Example C06_off_lattice_not_max :
+  let R := [0; 330; 590; 920] in let q := mkMap 7 600 [0; 260; 590] 0 in
+  planted R 1 3 false q /\ nth 1 R 0 = Z.of_nat 3 * 100 + 30 /\
+  xcorr (get_sequence R 100 1 false 0 None) (get_sequence (mpositions q) 100 1 false 0 None) = [6; 6; 5; 5; 5] /\
+  vsum (get_sequence (mpositions q) 100 0 false 0 None) = 3 /\ vsum (get_sequence (mpositions q) 100 1 false 0 None) = 6.
+Proof. vm_compute. repeat split; reflexivity. Qed.
+
+Print Assumptions C06_true_lag_is_global_max.
+Print Assumptions C06_true_lag_window_normalised.
+Print Assumptions C06_true_lag_any_offset_partial.
